@@ -772,7 +772,9 @@ class Expander(ast.NodeTransformer):
 def expand(repo: Repo, ctx: ClassInfo, member_name: str, stop=None, bind=None, max_depth: int = 12) -> ast.expr:
     m = repo.lookup(ctx, member_name)
     if m is None:
-        raise KeyError(f"{ctx.qual}.{member_name}")
+        from .loader import AnalysisError
+
+        raise AnalysisError(f"member vanished: {ctx.qual}.{member_name}")
     return Expander(repo, ctx, stop, max_depth).expand_member(m, bind)
 
 
